@@ -30,13 +30,15 @@ class X86PrologueEpilogueInsertion(ModulePass):
     name = "x86-prologue-epilogue-insertion"
 
     def _process_function(self, func: x86_func.FuncOp) -> None:
+        # Narrow views of a callee-saved register (e.g. `ebx`) clobber the full register
+        callee_saved_by_index = {reg.index: reg for reg in X86_CALLEE_SAVED_REGISTERS}
         used_callee_preserved_registers = OrderedSet(
-            res.type
+            callee_saved_by_index[res.type.index]
             for op in func.walk()
             if not isinstance(op, x86.GetRegisterOp)
             for res in op.results
             if isinstance(res.type, GeneralRegisterType)
-            if res.type in X86_CALLEE_SAVED_REGISTERS
+            if res.type.index in callee_saved_by_index
         )
 
         if not used_callee_preserved_registers:
